@@ -9,7 +9,7 @@ import coqemit as E
 ID = "C16"
 PROPS = "Props/C16.v"
 IMPORTS = ("From Coq Require Import String PrimFloat.\nFrom PV Require Import Lib.Common Lib.C16_Spec Model.C16_Store Model.C16_Heap Model.C16_Codec "
-           "Gen.C16_Fields Gen.C16_Kernel Model.C16_Kernel Model.C16_Maps Model.C16_Multi.")
+           "Gen.C16_Fields Gen.C16_Kernel Model.C16_Kernel Model.C16_Maps Model.C16_Multi Model.C16_Vcf.")
 SHARD = 40
 SERIAL = False
 LEVEL_TEXT = ("Coq theorems over executable models of (1) the HDF5 store with h5py_File_write_dict, the typed readers and the table-driven "
@@ -20,7 +20,10 @@ LEVEL_TEXT = ("Coq theorems over executable models of (1) the HDF5 store with h5
               "for the former code (None fields skipped; nested dictionaries never cleared; str hyper-parameters read as bytes) and, for the "
               "code as it stands, for a hyper-parameter whose value is None (dropped); (2) a heap model of copy/deepcopy: copies observe "
               "the source's values, a deep copy lives in freshly allocated cells closed under reachability and no mutation of them is visible "
-              "through the source; (3) VCF import (positionally exact; with grouping a stable sort + run-length metadata) and the data-frame "
+              "through the source; (3) VCF import (positionally exact; with grouping a stable sort + run-length metadata), stated also from the TEXT of the "
+              "file: a data line -> the attributes cyvcf2 derives (CHROM, POS as a 32-bit field, start, end = start + len(REF), ID) -> the record each "
+              "importer builds through the attribute selectors regenerated from both from_vcf bodies; every array equals its column of the file for "
+              "every coordinate below 2^31, REF / ALT (deletions, insertions, MNPs) play no part, and a coordinate >= 2^31 is refuted (known finding); and the data-frame "
               "codecs (Morgan genetic maps lossless; the egmap file pair reproduces every extended map, marker names and function codes "
               "included, and both map constructors keep the interpolation kind / fill value they are given - the two defects that were "
               "repaired in the library are kept as refutations about the former definitions old_egmap_to / old_egmap_from / "
@@ -34,7 +37,9 @@ LEVEL_TEXT = ("Coq theorems over executable models of (1) the HDF5 store with h5
               "theorems turn (Gen/C16_Kernel.v: field name, the three delete conditions and the recursive call of h5py_File_write_dict, the "
               "decode condition of h5py_File_read_dict, the group-name normalisation of all 18 to_hdf5/from_hdf5 bodies, the unit conversions, "
               "default units, constructor spline arguments, egmap column names, the condition under which from_egmap reads an optional column and by-name/by-position column selections of the table readers, "
-              "the long-table layout of the variance-matrix codec, the mode of `h5py.File(filename, <mode>)` and the exact set of statements that touch the "
+              "the long-table layout of the variance-matrix codec, for both from_vcf bodies (matched statement by statement) the attribute expression appended to "
+              "vrnt_chrgrp / vrnt_phypos / vrnt_name, the allele columns kept, the transposition, the summed axis and the constructor routing, "
+              "the mode of `h5py.File(filename, <mode>)` and the exact set of statements that touch the "
               "file object in each of the 12 to_hdf5 bodies) are extracted from the source by ast translators on every run; the "
               "round-trip theorems are restated about the code written with the generated definitions, proved equal to the hand model by "
               "conversion, so a changed expression leaves the obligations undischarged whatever the sampled cases exercise. The models are "
@@ -42,7 +47,7 @@ LEVEL_TEXT = ("Coq theorems over executable models of (1) the HDF5 store with h5
               "cyvcf2, the typed readers called directly, and copy/mutation experiments.")
 LEVEL_NOTE = ("trusted: Coq kernel + vm_compute, PrimFloat primitives (data-frame codecs), h5py/HDF5 (modelled as a path->node map with "
               "create/delete/membership), pandas (frames are compared cell by cell; CSV text is not modelled: the frame pandas parses back is an "
-              "input of the model), cyvcf2 (VCF text -> records), numpy copy semantics (ndarray.__copy__/__deepcopy__ duplicate the buffer). "
+              "input of the model), cyvcf2 (VCF text -> attributes of a record; its 32-bit POS, 64-bit start/end are modelled as observed), numpy copy semantics (ndarray.__copy__/__deepcopy__ duplicate the buffer). "
               "Theorems are about the Gallina models; the tie to the code is differential on generated inputs plus the regenerated field tables. "
               "Not proved: general (all-size) round trips of the wide/long data-frame "
               "codecs other than Morgan genetic maps and egmap files, class-level (all attributes at once) copy equality. "
@@ -63,7 +68,11 @@ RULE = ("case kinds from one PRNG: h5 (class, group name incl. nested/non-ASCII/
         "each of copy/deepcopy/.copy()/.deepcopy() in turn, source possibly itself a copy, hyper-parameter dictionaries with ndarray / list / "
         "dictionary members, non-default interpolation kinds; then every mutable value reachable from the copy is mutated in place: arrays, "
         "dictionary members, lists, members of member dictionaries), vcf (1-4 samples, 1-6 phased diploid records, unsorted, '.' identifiers, non-ASCII "
-        "names, phased and unphased class, with and without grouping, a share with tied coordinates), df (8 classes via pandas or CSV with "
+        "names, phased and unphased class, with and without grouping, a share with tied coordinates; and 'rich' files cycling importer x "
+        "auto_group_vrnt: deletions (REF of 2-9 bases), insertions, MNPs, several ALT alleles and symbolic ones, '.' / duplicated / 'None' / "
+        "non-ASCII identifiers, 1-4 contigs (numbers up to 2^31+5) whose header order is as drawn and records in file, contig-block or sorted "
+        "order, coordinates 1..40, up to 10^7, up to 2^30, at 2^31-1 and - one case in seven - beyond 2^31, 130-300 samples in one case out of "
+        "nine, duplicated coordinates, all four phased calls; every vcf case is evaluated in Coq from the text of its lines), df (8 classes via pandas or CSV with "
         "matching options, columns addressed by name or by position, dyadic and awkward floats, sorted/unsorted and absent labels, cM/M units, "
         "default arguments on both sides, interpolation kind handed to the reader, ExtendedGeneticMap through to_egmap/from_egmap and through "
         "hand-written egmap files with the documented header); non-trivial = an object with both present "
@@ -71,7 +80,7 @@ RULE = ("case kinds from one PRNG: h5 (class, group name incl. nested/non-ASCII/
 TRUSTED = ["h5py/HDF5 semantics: membership test, delete of a group removes its subtree, create_dataset creates missing groups and refuses existing names",
            "h5py.File modes as modelled by open_named: 'a' keeps the content, 'w' truncates, 'r+' needs an existing file, 'x'/'w-' refuse one; an open handle is used as it is",
            "pandas: DataFrame construction, get_loc, to_numpy; read_csv/to_csv treated as a black box whose parsed frame is observed",
-           "cyvcf2 0.34: VCF text -> (CHROM, POS, ID, genotypes)", "numpy: ndarray.__copy__/__deepcopy__ copy the buffer; lexsort/argsort(mergesort) are stable",
+           "cyvcf2 0.34: VCF text -> Variant attributes (CHROM, ID = None for '.', genotypes; POS = the coordinate as a 32-bit integer, start = coordinate - 1, end = start + len(REF), as observed)", "numpy: ndarray.__copy__/__deepcopy__ copy the buffer; lexsort/argsort(mergesort) are stable",
            "group metadata attribute names (taxa_grp_*, vrnt_chrgrp_*) are listed in the harness, not derived from the source",
            "harness/translate/c16_kernel.py (ast -> Gen/C16_Kernel.v, fail closed on any statement shape it does not recognise) and the entry-point audit "
            "(every class / persistence method / helper of the anchored modules is classified as covered or skipped, at run time)",
@@ -435,12 +444,14 @@ def emit_copy(case, out):
 
 # ---- VCF
 def emit_vcf(case, out):
-    if case.get("ties"): return None                      # order among equal (chromosome, position) keys: predicate only
+    # every vcf case is evaluated in Coq (equal coordinates too: the model sorts stably, as numpy.lexsort does), from the TEXT of the
+    # file: CHROM POS ID REF ALT and the calls of each line
     o = out["obj"]; n = len(case["samples"]); p = len(case["records"])
     phased = case["cls"] == "PGM"
-    recs = E.lst(case["records"], lambda r: "(mkV %s %s %s %s)" % (Z(r["chrom"]), Z(r["pos"]), "None" if r["id"] == "." else "(Some %s)" % zstr(r["id"]),
-                                                                   E.lst(r["gt"], lambda g: "(%s, %s)" % (Z(g[0]), Z(g[1])))))
+    lines = E.lst(case["records"], lambda r: "(mkL %s %s %s %s %s %s)" % (Z(r["chrom"]), Z(r["pos"]), "None" if r["id"] == "." else "(Some %s)" % zstr(r["id"]),
+                                                                    zstr(r["ref"]), zstr(r["alt"]), E.lst(r["gt"], lambda g: "(%s, %s)" % (Z(g[0]), Z(g[1])))))
     d = o["mat"]["d"]; sh = o["mat"]["sh"]
+    if len(sh) != (3 if phased else 2): return "false"
     if phased: mat = [[[d[(ph * sh[1] + i) * sh[2] + j] for j in range(sh[2])] for i in range(sh[1])] for ph in range(sh[0])]
     else: mat = [[[d[i * sh[1] + j] for j in range(sh[1])] for i in range(sh[0])]]
     meta = "None"
@@ -450,9 +461,10 @@ def emit_vcf(case, out):
     for k in ("taxa", "vrnt_chrgrp", "vrnt_phypos", "vrnt_name"):
         if o[k] is None: return "false"
     pl = _scalar(o["ploidy"])
-    return "agree_vcf %s %s %s %s %s %s %s %s %s %s %s" % (E.b(phased), E.lst(case["samples"], zstr), recs, E.b(case["auto_group"]),
+    hap_none = o.get("vrnt_hapref") is None and o.get("vrnt_hapalt") is None
+    return "agree_vcf_text %s %s %s %s %s %s %s %s %s %s %s %s" % (E.b(phased), E.lst(case["samples"], zstr), lines, E.b(case["auto_group"]),
         E.lst3(mat, Z), E.lst(o["taxa"]["d"], zstr), zl(o["vrnt_chrgrp"]["d"]), zl(o["vrnt_phypos"]["d"]), E.lst(o["vrnt_name"]["d"], zstr), meta,
-        Z(pl[1] if pl else -1))
+        Z(pl[1] if pl else -1), E.b(hap_none))
 
 # ---- data frames
 def e_f(h): return E.fhex(float.fromhex(h))
@@ -787,6 +799,7 @@ def gen_cases(rng, tier):
     for key in CLS:
         for i in range(M): cases.append(gen_copy(rng, key, i))
     for i in range(64 if tier == "quick" else 600): cases.append(gen_vcf(rng, ties=(i % 8 == 7)))
+    for i in range(72 if tier == "quick" else 720): cases.append(gen_vcf_rich(rng, i))
     for key in ["BV", "CM", "VM", "SGMAP", "EGMAP", "ALGM", "ADLGM", "STT"]:
         for i in range((30 if key != "STT" else 16) if tier == "quick" else 250): cases.append(gen_df(rng, key))
     for i in range(60 if tier == "quick" else 600): cases.append(gen_wd(rng))
@@ -865,6 +878,11 @@ def classify(case, out, clauses):
         if clauses and only_h:
             steps = [int(c.split("(step ")[1].split(")")[0]) for c in clauses]
             if all(_hyper_none(case["objs"][i]) for i in steps): return "C16-h5-hyperparams-none-dropped"
+    if case["kind"] == "vcf" and clauses and "exc" not in out:
+        # known: cyvcf2's `variant.POS` is a 32-bit field, a coordinate >= 2^31 comes back reduced modulo 2^32.  Accepted only when the
+        # file has such a coordinate AND the whole output is exactly what the file with the wrapped coordinates would give
+        if any(r["pos"] > POS_MAX32 for r in case["records"]) and pred_vcf(case, out, wrap=True) == []: return "C16-vcf-pos-int32-wrap"
+        return None
     if case["kind"] == "df" and clauses:
         tags = set()
         for c in clauses:
@@ -1059,7 +1077,8 @@ def pred_copy(case, out):
 # ------------------------------------------------------------------------------------------------ VCF import
 def vcf_text(case):
     lines = ["##fileformat=VCFv4.2"]
-    for c in sorted({r["chrom"] for r in case["records"]}): lines.append("##contig=<ID=%d>" % c)
+    # contig lines in the order the case gives (file order need not be the sorted order), else sorted
+    for c in case.get("contigs") or sorted({r["chrom"] for r in case["records"]}): lines.append("##contig=<ID=%d>" % c)
     lines.append('##FORMAT=<ID=GT,Number=1,Type=String,Description="Genotype">')
     lines.append("\t".join(["#CHROM", "POS", "ID", "REF", "ALT", "QUAL", "FILTER", "INFO", "FORMAT"] + case["samples"]))
     for r in case["records"]:
@@ -1095,7 +1114,67 @@ def gen_vcf(rng, ties=False):
     if rng.random() < 0.5: recs.sort(key=lambda r: (r["chrom"], r["pos"]))
     return {"kind": "vcf", "cls": rng.choice(["PGM", "GM"]), "samples": samples, "records": recs, "auto_group": rng.random() < 0.6, "ties": ties}
 
-def pred_vcf(case, out):
+POS_MAX32 = 2 ** 31 - 1
+def _bases(rng, k): return "".join(rng.choice("ACGT") for _ in range(k))
+def _alleles(rng, kind):
+    """(REF, ALT) text of one record: snp | del (REF longer) | ins (ALT longer) | mnp (equal length > 1) | multi (several ALT alleles)"""
+    if kind == "snp":
+        r = rng.choice("ACGT"); return r, rng.choice([b for b in "ACGT" if b != r])
+    if kind == "del":
+        r = _bases(rng, rng.randint(2, 9)); return r, r[0]
+    if kind == "ins":
+        r = rng.choice("ACGT"); return r, r + _bases(rng, rng.randint(1, 6))
+    if kind == "mnp":
+        k = rng.randint(2, 4); return _bases(rng, k), _bases(rng, k)
+    r = _bases(rng, rng.randint(1, 4)); return r, ",".join([r[0] + _bases(rng, rng.randint(0, 3)) + "T", r[0]][:rng.randint(1, 2)] + ["<DEL>"][:rng.randint(0, 1)])
+def _vcf_pos(rng, mode):
+    k = rng.random()
+    if mode == "big" and k < 0.5: return rng.choice([2 ** 31, 2 ** 31 + rng.randint(1, 10 ** 6), 2 ** 32 + rng.randint(-3, 3), rng.randint(2 ** 31, 2 ** 40), 5 * 10 ** 9])
+    if k < 0.35: return rng.randint(1, 40)
+    if k < 0.7: return rng.randint(41, 10 ** 7)
+    if k < 0.85: return rng.randint(10 ** 7, 2 ** 30)
+    return POS_MAX32 - rng.choice([0, 0, 1, 2, rng.randint(3, 1000)])           # the largest coordinates a 32-bit POS can hold
+
+def gen_vcf_rich(rng, i):
+    """VCF text as real call sets have it: deletions / MNPs (REF longer than one base), insertions, several ALT alleles, missing
+    identifiers, contigs whose file order is not the sorted order, coordinates up to (and, in one case out of six, beyond) 2^31,
+    many samples, duplicated coordinates, every one of the four phased diploid calls; importer x auto_group_vrnt cycle with i"""
+    cls = ("PGM", "GM")[i % 2]; auto = bool((i // 2) % 2)
+    many = (i % 9 == 4)                                   # more samples than an int8 / uint8 counter holds
+    mode = "big" if i % 7 == 5 else "std"                 # 7, 9, 5 are coprime to 4: every importer x flag combination meets every dimension
+    ties = (i % 5 == 3)
+    n = rng.randint(130, 300) if many else rng.randint(1, 5)
+    p = rng.randint(2, 4) if many else rng.randint(1, 9)
+    if many: samples = ["S%03d" % k for k in range(n)]; rng.shuffle(samples)
+    else:
+        samples = g_ustr(rng, n)["d"]
+        samples = [s.replace("/", "_").replace(" ", "_") or "S%d" % k for k, s in enumerate(samples)]
+    contigs = rng.sample([1, 2, 3, 4, 5, 7, 10, 11, 12, 20, 23, 100, 1000, 2 ** 31 + 5], rng.randint(1, 4))      # header order as drawn
+    recs = []; coords = set()
+    for j in range(p):
+        while True:
+            c, pos = rng.choice(contigs), _vcf_pos(rng, mode)
+            if ties and recs and rng.random() < 0.45: c, pos = recs[-1]["chrom"], recs[-1]["pos"]; break
+            if (c, pos) not in coords: break
+        coords.add((c, pos))
+        ref, alt = _alleles(rng, rng.choice(["snp", "del", "del", "ins", "mnp", "multi"]))
+        rid = rng.choice([".", ".", "rs%d" % rng.randint(1, 10 ** 9), "m_%d" % j, "snp-é%d" % j, "日本%d" % j, "%d_%d" % (c, pos), "a;b%d" % j, "None", "dup"])
+        recs.append({"chrom": c, "pos": pos, "id": rid, "ref": ref, "alt": alt, "gt": [[rng.randint(0, 1), rng.randint(0, 1)] for _ in range(n)]})
+    # all four phased calls occur (first sample-major cells), whenever there is room for them
+    cells = [(j, k) for j in range(p) for k in range(n)][:4]
+    if len(cells) == 4:
+        for (j, k), g in zip(cells, rng.sample([[0, 0], [0, 1], [1, 0], [1, 1]], 4)): recs[j]["gt"][k] = g
+    order = rng.choice(["file", "contig-blocks", "sorted"])
+    if order == "contig-blocks":                         # records grouped by contig in HEADER order, positions ascending inside a contig
+        recs.sort(key=lambda r: (contigs.index(r["chrom"]), r["pos"]))
+    elif order == "sorted": recs.sort(key=lambda r: (r["chrom"], r["pos"]))
+    return {"kind": "vcf", "cls": cls, "samples": samples, "contigs": contigs, "records": recs, "auto_group": auto, "ties": ties, "rich": True}
+
+def _wrap32(z): return (z + 2 ** 31) % 2 ** 32 - 2 ** 31
+
+def pred_vcf(case, out, wrap=False):
+    """the property on the outputs, against the TEXT of the file (no model): every field the importer fills equals the column of the
+    file it stands for.  wrap=True is used by `classify` only: the coordinates a 32-bit POS field would give"""
     bad = []
     o = out["obj"]; recs = case["records"]; n = len(case["samples"]); p = len(recs)
     def arr(k): return None if o[k] is None else o[k]
@@ -1112,8 +1191,12 @@ def pred_vcf(case, out):
         return tuple(r["gt"][i][0] + r["gt"][i][1] for i in range(n))
     for k in ("vrnt_chrgrp", "vrnt_phypos", "vrnt_name"):
         if o[k] is None or len(o[k]["d"]) != p: bad.append("%s missing or of wrong length" % k); return bad
+    for k, t in (("vrnt_chrgrp", "i64"), ("vrnt_phypos", "i64")):
+        if o[k]["t"] != t: bad.append("%s has dtype %s, expected int64" % (k, o[k]["t"]))
+    fpos = (lambda r: _wrap32(r["pos"])) if wrap else (lambda r: r["pos"])
     got = [(o["vrnt_chrgrp"]["d"][j], o["vrnt_phypos"]["d"][j], o["vrnt_name"]["d"][j], col(j)) for j in range(p)]
-    want = [(r["chrom"], r["pos"], "None" if r["id"] == "." else r["id"], wantcol(r)) for r in recs]
+    want = [(r["chrom"], fpos(r), "None" if r["id"] == "." else r["id"], wantcol(r)) for r in recs]
+    perm = list(range(p))                                 # file record standing at output position j
     if case["auto_group"]:
         if sorted(got) != sorted(want): bad.append("variants (coordinate, identifier, calls) not reproduced as a multiset")
         keys = [(g[0], g[1]) for g in got]
@@ -1125,10 +1208,27 @@ def pred_vcf(case, out):
         exp = {"vrnt_chrgrp_name": chroms, "vrnt_chrgrp_stix": st, "vrnt_chrgrp_spix": [a + b for a, b in zip(st, cnt)], "vrnt_chrgrp_len": cnt}
         for k, v in exp.items():
             if o[k] is None or o[k]["d"] != v: bad.append("%s wrong after import" % k)
+        # the stable order (records with equal coordinates keep their file order: numpy.lexsort is stable)
+        perm = sorted(range(p), key=lambda j: (recs[j]["chrom"], fpos(recs[j])))
     else:
         if got != want: bad.append("variant coordinates / identifiers / calls differ from the file (positionally)")
         for k in VRNT_META:
             if o[k] is not None: bad.append("%s set although grouping was not requested" % k)
+    # field by field, each against its own column of the file text (CHROM, POS, ID, the GT calls; REF / ALT where they are filled)
+    w = [want[j] for j in perm]
+    for ix, (k, colname) in enumerate((("vrnt_chrgrp", "CHROM"), ("vrnt_phypos", "POS"), ("vrnt_name", "ID"))):
+        g_ = [t[ix] for t in got]; w_ = [t[ix] for t in w]
+        if g_ != w_:
+            j = next(j for j in range(p) if g_[j] != w_[j])
+            r = recs[perm[j]]
+            bad.append("%s is not the %s column of the file: variant %d (line %d: %s %s %s %s %s) has %r, the file says %r"
+                       % (k, colname, j, perm[j], r["chrom"], r["pos"], r["id"], r["ref"], r["alt"], g_[j], w_[j]))
+    gm = [t[3] for t in got]; wm = [t[3] for t in w]
+    if gm != wm:
+        j = next(j for j in range(p) if gm[j] != wm[j]); i = next(i for i in range(len(gm[j])) if gm[j][i] != wm[j][i])
+        bad.append("allele calls are not the GT column of the file: variant %d (line %d), cell %d has %r, the file says %r" % (j, perm[j], i, gm[j][i], wm[j][i]))
+    for k, f in (("vrnt_hapref", "ref"), ("vrnt_hapalt", "alt")):
+        if o.get(k) is not None and o[k].get("d") != [recs[j][f] for j in perm]: bad.append("%s filled, but not with the %s column of the file" % (k, f.upper()))
     if o.get("ploidy") is not None and _scalar(o["ploidy"]) != ("i", 2): bad.append("ploidy != 2 for diploid calls")
     for k in ("taxa_grp", "vrnt_genpos", "vrnt_xoprob", "vrnt_hapgrp", "vrnt_mask"):
         if o[k] is not None: bad.append("%s invented by the import" % k)
